@@ -83,13 +83,7 @@ def _o1(ctx, fi):
               "ready iff all dependencies are already in the order")
 
 
-def _o2(ctx, fi):
-    R = "C21-O2"
-    ctx.doc(R, "dependency edges: whole-word, escaped match of every other field name in unevaluated non-literal strings")
-    finds = [c for c in fi.calls() if call_name(c) in ("findall", "search", "match", "finditer") and isinstance(c.func, ast.Attribute) and norm(c.func.value) == "re"]
-    ctx.require(len(finds) == 1, R, f"{fi.fq}: dependency regex call not found ({len(finds)})")
-    c = finds[0]
-    pat = c.args[0]
+def _regex_whole_word(pat):
     parts = []
 
     def flat(e):
@@ -101,23 +95,62 @@ def _o2(ctx, fi):
     texts = [p.value if isinstance(p, ast.Constant) else norm(p) for p in parts]
     ok = len(parts) == 3 and texts[0] == r"\b" and texts[2] == r"\b" and texts[1].startswith("re.escape(")
     if isinstance(pat, ast.JoinedStr):
-        s = norm(pat)
-        ok = s.count("\\\\b") == 2 or s.count(r"\b") == 2
-        ok = ok and "re.escape(" in s
-    ctx.check(ok, R, fi, c, f"the dependency pattern `{norm(pat)}` is not \\b + re.escape(name) + \\b: a field named `a` would depend on every expression containing "
-                            f"`bar`/`area` (spurious cycles), or a name with regex metacharacters would not match",
-              "whole-word, escaped match")
-    ctx.check(call_name(c) != "match", R, fi, c, "re.match only finds the name at the start of the expression", f"re.{call_name(c)} scans the whole expression")
-    cfg = ctx.cfg(fi)
-    n = cfg.stmt_node_containing(c)
-    conds = [(norm(h.ast.test), lab) for h, lab in cfg.control_conditions(n) if h.kind == "if"]
-    self_excl = any(t in ("field != other_field", "other_field != field") and lab == "true" for t, lab in conds)
-    ctx.check(self_excl, R, fi, c, "a field may depend on itself (self-edges make every self-mentioning field a cycle) or the guard is inverted", "self edges excluded")
-    strs_only = any("isinstance(other_value, str)" in t and "is_literal_string" in t and lab == "false" for t, lab in conds)
-    ctx.check(strs_only, R, fi, c, "dependencies are not restricted to unevaluated, non-literal strings", "edges only from unevaluated non-literal strings")
+        s_ = norm(pat)
+        ok = (s_.count("\\\\b") == 2 or s_.count(r"\b") == 2) and "re.escape(" in s_
+    return ok
+
+
+def _o2(ctx, fi):
+    R = "C21-O2"
+    ctx.doc(R, "dependency edges: for every ordered pair of distinct fields an edge user->used is recorded iff used's name occurs as a whole word (escaped) in user's unevaluated non-literal string")
+    m = fi.module
+    helpers = [f for f in m.funcs.values() if f.parent is fi]
+    scopes = [fi] + helpers
+    finds = [(f, c) for f in scopes for c in f.calls() if call_name(c) in ("findall", "search", "match", "finditer", "fullmatch") and isinstance(c.func, ast.Attribute) and norm(c.func.value) == "re"]
+    ctx.require(len(finds) == 1, R, f"{fi.fq}: dependency regex call not found ({len(finds)})")
+    rf, c = finds[0]
+    ctx.check(_regex_whole_word(c.args[0]), R, rf, c, f"the dependency pattern `{norm(c.args[0])}` is not \\b + re.escape(name) + \\b: a field named `a` would depend on every expression containing "
+                                               f"`bar`/`area` (spurious cycles), or a name with regex metacharacters would not match", "whole-word, escaped match")
+    ctx.check(call_name(c) not in ("match", "fullmatch"), R, rf, c, f"re.{call_name(c)} only finds the name at the start of / as the whole expression", f"re.{call_name(c)} scans the whole expression")
+    # non-literal strings only
+    scope_txt = norm(rf.node)
+    strs_only = "isinstance(" in scope_txt and ", str)" in scope_txt and "is_literal_string(" in scope_txt
+    ctx.check(strs_only, R, rf, c, "dependencies are not restricted to unevaluated, non-literal strings", "edges only from unevaluated non-literal strings")
     adds = [x for x in fi.calls("add") if "dependencies" in norm(x.func.value)]
-    ok = len(adds) == 1 and norm(adds[0].func.value) == "dependencies[other_field]" and norm(adds[0].args[0]) == "field"
-    ctx.check(ok, R, fi, adds[0] if adds else c, "the edge is not recorded as `dependencies[user].add(used)`: the order would be reversed", "edge direction: user depends on used")
+    ctx.require(adds, R, f"{fi.fq}: no `dependencies[...].add(...)`")
+    cfg = ctx.cfg(fi)
+    pm = parent_map(fi.node)
+    # shape (i): nested loops over to_sort x to_sort, one add
+    loops = [s for s in fi.stmts() if isinstance(s, ast.For) and norm(s.iter) == "to_sort" and any(a is x for a in adds for x in ast.walk(s))]
+    combos = [s for s in fi.stmts() if isinstance(s, ast.For) and "combinations(to_sort, 2)" in norm(s.iter)]
+    if len(adds) == 1 and len(loops) >= 2:
+        a = adds[0]
+        n = cfg.stmt_node_containing(a)
+        conds = [(norm(h.ast.test), lab) for h, lab in cfg.control_conditions(n) if h.kind == "if"]
+        self_excl = any(t in ("field != other_field", "other_field != field") and lab == "true" for t, lab in conds)
+        ctx.check(self_excl, R, fi, a, "a field may depend on itself (self-edges make every self-mentioning field a cycle) or the guard is inverted", "self edges excluded")
+        # direction: the field whose VALUE is searched is the user
+        user_val = norm(c.args[1])
+        outer = [l for l in loops if user_val in [norm(e) for e in ast.walk(l.target) if isinstance(e, ast.Name)]]
+        user_field = norm(outer[0].target.elts[0]) if outer and isinstance(outer[0].target, ast.Tuple) else None
+        used = norm(c.args[0]).split("re.escape(")[1].split(")")[0] if "re.escape(" in norm(c.args[0]) else None
+        ok = user_field is not None and norm(a.func.value) == f"dependencies[{user_field}]" and norm(a.args[0]) == used
+        ctx.check(ok, R, fi, a, f"the edge is recorded as `{norm(a)}` although `{used}` is searched in the value of `{user_field}`: the order would be reversed", "edge direction: user depends on used")
+    elif combos and len(adds) == 2:
+        # shape (ii): unordered pairs, both directions must be tested independently
+        lp = combos[0]
+        sa, sb = [], []
+        for a in adds:
+            st = a
+            while not isinstance(st, ast.stmt):
+                st = pm[id(st)]
+            sa.append(st)
+        ifs = [pm[id(x)] for x in sa]
+        indep = all(isinstance(i_, ast.If) for i_ in ifs) and ifs[0] is not ifs[1] and not any(ifs[1] is y for y in ast.walk(ifs[0]) if y is not ifs[0]) and not any(ifs[0] is y for y in ast.walk(ifs[1]) if y is not ifs[1])
+        ctx.check(indep, R, fi, ifs[1] if isinstance(ifs[1], ast.AST) else lp, "with unordered pairs the two directions are tested with if/elif: when two fields mention each other only ONE edge is recorded, so a "
+                                                                                 "two-field dependency cycle is not detected and one of them is evaluated against an undefined/outer name", "both directions tested independently")
+    else:
+        raise AnalysisError(R, f"unrecognised-form {fi.fq}: edge construction ({len(adds)} add sites, {len(loops)} loops over to_sort, {len(combos)} combination loops)")
 
 
 def _o3(ctx, fi):
@@ -224,12 +257,24 @@ def _o5(ctx):
     p = post[0]
     cfg = ctx.cfg(p)
     stores = [st for st in p.stmts() for t, v, _ in assigned_targets(st) if isinstance(t, ast.Subscript) and norm(t.value) == "evaluated_dump" and isinstance(t.slice, ast.Name)]
-    ctx.require(len(stores) == 1, R, f"{p.fq}: carry-over store")
-    n = cfg.node_of(stores[0])
-    conds = [(norm(h.ast.test), lab) for h, lab in cfg.control_conditions(n) if h.kind == "if"]
-    ok = any(t == "k not in evaluated_dump" and lab == "true" for t, lab in conds) or any(t == "k in evaluated_dump" and lab == "false" for t, lab in conds)
-    ctx.check(ok, R, p, stores[0], "spec-level variables overwrite arch-level variables of the same name (carry-over is not restricted to absent names)",
-              "spec variables carried over only when the arch does not define the name")
+    bulk = [c for c in p.calls("update") if norm(c.func.value) == "evaluated_dump"]
+    setd = [c for c in p.calls("setdefault") if norm(c.func.value) == "evaluated_dump"]
+    msg = "spec-level variables overwrite arch-level variables of the same name (carry-over is not restricted to absent names): the arch's own value no longer shadows the spec-level one"
+    if bulk:
+        ctx.bad(R, p, bulk[0], msg + f" -- `{norm(bulk[0])[:80]}`")
+    elif len(stores) == 1:
+        n = cfg.node_of(stores[0])
+        conds = [(norm(h.ast.test), lab) for h, lab in cfg.control_conditions(n) if h.kind == "if"]
+        ok = any(t == "k not in evaluated_dump" and lab == "true" for t, lab in conds) or any(t == "k in evaluated_dump" and lab == "false" for t, lab in conds)
+        ctx.check(ok, R, p, stores[0], msg, "spec variables carried over only when the arch does not define the name")
+    elif setd:
+        ctx.ok(R, p, setd[0], "spec variables carried over with setdefault (only when absent)")
+    else:
+        rebuilt = [v for st in p.stmts() for t, v, _ in assigned_targets(st) if isinstance(t, ast.Name) and t.id == "evaluated_dump" and isinstance(v, ast.Dict) and all(k is None for k in v.keys)]
+        ctx.require(len(rebuilt) == 1, R, f"{p.fq}: carry-over of spec-level variables not found in a recognised form")
+        order = [norm(x) for x in rebuilt[0].values]
+        ok = len(order) == 2 and "symbol_table" in order[0] and "evaluated" in order[1]
+        ctx.check(ok, R, p, rebuilt[0], msg, "spec variables spread first, arch variables last")
     upd = [c for c in p.calls("update") if norm(c.func.value) == "symbol_table"]
     ctx.check(bool(upd) and norm(upd[0].args[0]) == "evaluated_dump", R, p, upd[0] if upd else p.node, "arch variables are not published into the symbol table", "arch variables published (override outer)")
 
@@ -272,6 +317,31 @@ VARIANTS = [
         (ARCH, "                        if k not in evaluated_dump:\n                            evaluated_dump[k] = v", "                        if k in evaluated_dump or True:\n                            evaluated_dump[k] = v")]},
     {"kind": "F", "name": "edge-direction-reversed", "rule": "C21-O2", "edits": [
         (BT, "                    dependencies[other_field].add(field)", "                    dependencies[field].add(other_field)")]},
+    {"kind": "F", "name": "spec-vars-bulk-update", "rule": "C21-O5", "edits": [
+        (ARCH, "                    for k, v in symbol_table.get(\"variables\", {}).items():\n                        if k not in evaluated_dump:\n                            evaluated_dump[k] = v\n", "                    evaluated_dump.update(symbol_table.get(\"variables\", {}))\n")]},
+    {"kind": "F", "name": "unordered-pairs-elif", "rule": "C21-O2", "edits": [
+        (BT, """    dependencies = {field: oset() for field, _ in to_sort}
+    for other_field, other_value in to_sort:
+        # Can't have any dependencies if you're not going to be evaluated
+        if not isinstance(other_value, str) or is_literal_string(other_value):
+            continue
+        for field, value in to_sort:
+            if field != other_field:
+                if re.findall(r"\\b" + re.escape(field) + r"\\b", other_value):
+                    dependencies[other_field].add(field)
+""", """    def references(value, name):
+        if not isinstance(value, str) or is_literal_string(value):
+            return False
+        return re.search(r"\\b" + re.escape(name) + r"\\b", value) is not None
+
+    import itertools
+    dependencies = {field: oset() for field, _ in to_sort}
+    for (field_a, value_a), (field_b, value_b) in itertools.combinations(to_sort, 2):
+        if references(value_a, field_b):
+            dependencies[field_a].add(field_b)
+        elif references(value_b, field_a):
+            dependencies[field_b].add(field_a)
+""")]},
     {"kind": "S", "name": "dict-instead-of-copy", "edits": [
         (BT, "        new = self.model_copy()\n        symbol_table = symbol_table.copy() if symbol_table is not None else {}", "        new = self.model_copy()\n        symbol_table = dict(symbol_table) if symbol_table is not None else {}")]},
     {"kind": "S", "name": "regex-search", "edits": [
